@@ -4,6 +4,7 @@
    with the validating skipper (Model/SkipAll.v). *)
 From Coq Require Import List Bool Arith NArith ZArith.
 From SonicV Require Import Spec.Ref Model.Bitmap Model.PrefixXor Model.Bracket Model.SkipAll Model.Skip Model.RefSound Model.ValueEdges.
+From SonicV Require Model.GetLookup.
 Local Close Scope N_scope.
 Local Open Scope nat_scope.
 Import ListNotations.
@@ -38,3 +39,11 @@ Proof. intros strict fuel. exact (proj1 (pvalue_sound strict fuel)). Qed.
    exactly one value carries no surrounding whitespace *)
 Theorem value_has_no_edge_whitespace : forall v, Value v -> edge_ok v.
 Proof. exact value_edges. Qed.
+
+(* the two reference functions agree: on a text the strict reference parser accepts, walking a path
+   through the bytes (the reference get, validating what it traverses) finds exactly the span that
+   looking the path up in the parsed tree finds (first member wins), and nothing where the lookup
+   does not resolve: get succeeds if and only if the path resolves in the reference tree *)
+Theorem reference_get_is_tree_lookup : forall l v a b p, ref_text true l = Some (v, a, b) ->
+  ref_get l p = match lookup v a b p with Found a' b' _ => Some (a', b') | _ => None end.
+Proof. exact GetLookup.get_iff_lookup. Qed.
